@@ -30,5 +30,7 @@ class ImportNode(BaseNode):
             node.name = Sign.SEPARATOR.join(path)
             node.indent = self.indent
             node.isource = self.source
+            if env.envtype!=EnvType.DOCS:
+                node.value_ref = None  # imported nodes carry their value, injections are not repeated
             nodes_new.append(node)
         return nodes_new
